@@ -1,4 +1,543 @@
-(* C01: semantic theorems (placeholder while the harness is brought up). *)
-From FA.Base Require Import PyAst Value Eval.
+(* C01, semantic half.
+
+   1. [remove_sem]: remove_empty_metadata preserves the meaning of every query, for every backend in which MetaData is
+      the identity on its first argument (the generic congruence engine of Proofs/EvalCong.v; only the removed
+      wrapper needs an argument of its own).
+   2. [stage_sem]: one operator node [Op(src, lambda p: b)] evaluates to what the direct combinator computes with any
+      function the lambda body refines.
+   3. [step_sound]: one modelled operator call (acquire, sugar, follow, wrap with metadata, node) is sound as soon as
+      acquisition and following refine the meaning of the lambda.
+   4. The chain theorems: by induction on the chain (any length, any order of operators).
+   5. The backend passes. *)
+From FA.Base Require Import PyAst Induct Value Eval Traverse.
+From FA.Gen Require Import Tables TablesStream.
 From FA.Model Require Import TypeDefs Pipeline.
-From FA.Proofs Require Import PipelineFacts.
+From FA.Model Require Capture Sugar TypeFollow MetaData ExtCalls Aggregate Simplify.
+From FA.Proofs Require Import TraverseFacts Refine EvalCong MetaDataRemove SugarSem TypeFollowFacts TypeFollowUntyped
+  ExtCallsSem AggregateSem PipelineFacts.
+From Coq Require Import Lia.
+
+(* ---------- backends ---------- *)
+
+(* MetaData(stream, dict) denotes the stream *)
+Definition md_identity (B : backend) : Prop :=
+  forall v d kws, fun_sem B "MetaData" [v; d] kws = Some v.
+
+(* a result-format terminal denotes the stream it is given (how it is written out is not part of the meaning) *)
+Definition terminals_identity (B : backend) : Prop :=
+  forall node v args, fun_sem B node (v :: args) [] = Some v.
+
+(* the dataset the query is run on *)
+Definition dataset (B : backend) (data : list value) : Prop :=
+  fun_sem B "EventDataset" [] [] = Some (VList data).
+
+(* ---------- 1. remove_empty_metadata ---------- *)
+
+Lemma clean_call_cases n e' :
+  MetaData.clean_call n = Some e' ->
+  e' = n \/ exists a0 a1 kwn kwv, n = Call (Name "MetaData") [a0; a1] kwn kwv /\ e' = a0.
+Proof.
+  destruct n; cbn [MetaData.clean_call]; try (intros H; inversion H; left; reflexivity).
+  destruct n; try (intros H; inversion H; left; reflexivity).
+  destruct args as [|a0 [|a1 [|a2 args]]]; try (intros H; inversion H; left; reflexivity).
+  destruct (String.eqb id MetaData.md_name) eqn:Hid; [|intros H; inversion H; left; reflexivity].
+  apply String.eqb_eq in Hid. subst id.
+  intros H. apply obind_some in H. destruct H as [d [_ H]].
+  destruct (MetaData.is_empty_dict d); inversion H; subst; [right | left; reflexivity].
+  exists e', a1, kwn, kwv. split; reflexivity.
+Qed.
+
+Section RemoveSem.
+  Variable B : backend.
+  Variable ops : list string.
+  Hypothesis Hmd : md_identity B.
+  Notation ev := (eval B ops).
+  Notation T := MetaData.remove_empty.
+
+  Lemma remove_generic e : is_call e = false -> T e = map_children T e.
+  Proof. destruct e; intros H; try reflexivity; discriminate. Qed.
+
+  Lemma apply_op_md recv (a : aview) :
+    apply_op B "MetaData" recv [a] =
+    obind recv (fun s => obind (sequence [av_val a]) (fun vs => fun_sem B "MetaData" (s :: vs) [])).
+  Proof. reflexivity. Qed.
+
+  Theorem remove_refines : forall e, sem_ok B ops T e.
+  Proof.
+    apply (pass_refines B ops T remove_generic).
+    intros e Hc IH e' He E.
+    pose proof He as He0.
+    destruct e; try discriminate Hc.
+    cbn [MetaData.remove_empty] in He. apply obind_some in He. destruct He as [n [Hn Hclean]].
+    destruct (clean_call_cases _ _ Hclean) as [-> | (a0 & a1 & kwn' & kwv' & -> & ->)].
+    - (* the node is kept: generic congruence *)
+      apply (node_congruence B ops T remove_generic (Call e args kwn kwv) IH); [|exact He0].
+      rewrite Hn. exact He0.
+    - (* an empty wrapper is replaced by its (cleaned) source *)
+      cbn [map_children] in Hn.
+      apply obind_some in Hn. destruct Hn as [f' [Hf Hn]].
+      apply obind_some in Hn. destruct Hn as [args' [Hargs Hn]].
+      apply obind_some in Hn. destruct Hn as [kwv2 [Hkwv Hn]].
+      inversion Hn; subst f' args' kwn' kwv'. clear Hn.
+      destruct args as [|x0 [|x1 [|x2 args]]];
+        try (apply omap_nil_some in Hargs; discriminate);
+        try (apply omap_cons_some in Hargs; destruct Hargs as (? & ? & _ & Hr & Heq);
+             try (apply omap_nil_some in Hr; subst; discriminate);
+             apply omap_cons_some in Hr; destruct Hr as (? & ? & _ & Hr & ->);
+             try (apply omap_nil_some in Hr; subst; discriminate);
+             apply omap_cons_some in Hr; destruct Hr as (? & ? & _ & _ & ->); discriminate).
+      apply omap_cons_some in Hargs. destruct Hargs as (y0 & r0 & Hx0 & Hr & Heq).
+      apply omap_cons_some in Hr. destruct Hr as (y1 & r1 & Hx1 & Hr & ->).
+      apply omap_nil_some in Hr. subst r1. inversion Heq; subst y0 y1. clear Heq.
+      assert (Hs0 : size x0 < size (Call e [x0; x1] kwn kwv)).
+      { apply size_child. cbn [children]. right; left; reflexivity. }
+      pose proof (IH x0 Hs0 a0 Hx0 E) as IH0.
+      intros v Hv.
+      assert (Hname : is_call e = true \/ e = Name "MetaData").
+      { destruct e; try (right; cbn in Hf; inversion Hf; reflexivity); try (left; reflexivity);
+          exfalso; cbn in Hf;
+          repeat match goal with
+                 | H : obind _ _ = Some _ |- _ =>
+                     apply obind_some in H; let a := fresh "u" in let Ha := fresh "Hu" in destruct H as [a [Ha H]]
+                 end; discriminate. }
+      destruct Hname as [Hce | ->].
+      + (* the callee is itself a call: the reference semantics gives such a call no meaning *)
+        exfalso. destruct e; try discriminate Hce. cbn [eval] in Hv.
+        destruct kwn; [discriminate|].
+        destruct (omap (ev E) [x0; x1]); cbn [obind] in Hv; [|discriminate].
+        destruct (omap (ev E) kwv); cbn [obind] in Hv; [|discriminate].
+        destruct (zip_kw (o :: kwn) l0); cbn [obind] in Hv; discriminate.
+      + apply IH0. cbn [eval] in Hv. destruct kwn as [|k kwn].
+        * cbn [map] in Hv. rewrite apply_op_md in Hv.
+          destruct (ev E x0) as [s|]; cbn [obind] in Hv; [|discriminate].
+          cbn [mk_view av_val sequence] in Hv.
+          destruct (ev E x1) as [d|]; cbn [obind] in Hv; [|discriminate].
+          rewrite Hmd in Hv. exact Hv.
+        * unfold omap in Hv at 1. cbn [map sequence] in Hv.
+          destruct (ev E x0) as [s|]; cbn [obind] in Hv; [|discriminate].
+          destruct (ev E x1) as [d|]; cbn [obind] in Hv; [|discriminate].
+          destruct (omap (ev E) kwv); cbn [obind] in Hv; [|discriminate].
+          destruct (zip_kw (k :: kwn) l); cbn [obind] in Hv; [|discriminate].
+          rewrite Hmd in Hv. exact Hv.
+  Qed.
+
+  Theorem remove_sem e e' :
+    MetaData.remove_empty e = Some e' -> forall E v, ev E e = Some v -> ev E e' = Some v.
+  Proof. intros H E v. exact (remove_refines e e' H E v). Qed.
+End RemoveSem.
+
+(* ---------- 2. one operator node ---------- *)
+
+Section Node.
+  Variable B : backend.
+  Variable ops : list string.
+  Notation ev := (eval B ops).
+
+  Lemma eval_root E data : dataset B data -> ev E root = Some (VList data).
+  Proof. intros H. exact H. Qed.
+
+  Lemma apply_op_select recv (a : aview) :
+    apply_op B "Select" recv [a] =
+    obind recv (fun s => obind (as_list s) (fun l => obind (av_f1 a) (fun f => option_map VList (omap f l)))).
+  Proof. reflexivity. Qed.
+
+  Lemma apply_op_where recv (a : aview) :
+    apply_op B "Where" recv [a] =
+    obind recv (fun s => obind (as_list s) (fun l => obind (av_f1 a) (fun f =>
+      option_map VList (ofilter (fun v => option_map truthy (f v)) l)))).
+  Proof. reflexivity. Qed.
+
+  Lemma apply_op_selectmany recv (a : aview) :
+    apply_op B "SelectMany" recv [a] =
+    obind recv (fun s => obind (as_list s) (fun l => obind (av_f1 a) (fun f =>
+      obind (omap (fun v => obind (f v) as_list) l) (fun ls => Some (VList (concat ls)))))).
+  Proof. reflexivity. Qed.
+
+  (* [Op(src, lambda p: b2)] computes what the direct combinator computes with any function the body refines *)
+  Lemma stage_sem E op p b2 (f : value -> option value) src l l' :
+    (forall v, refines (f v) (ev ((p, v) :: E) b2)) ->
+    ev E src = Some (VList l) ->
+    run_op op f l = Some l' ->
+    ev E (function_call (op_name op) [src; Lambda [p] b2]) = Some (VList l').
+  Proof.
+    intros Hf Hsrc Hrun. unfold function_call.
+    destruct op; try discriminate Hrun; cbn [op_name eval map run_op] in *.
+    - rewrite apply_op_select, Hsrc. cbn [obind as_list mk_view av_f1 option_map].
+      rewrite map_opt_omap in Hrun.
+      rewrite (omap_refines f (fun v => ev ((p, v) :: E) b2) l Hf _ Hrun). reflexivity.
+    - rewrite apply_op_selectmany, Hsrc. cbn [obind as_list mk_view av_f1].
+      destruct (map_opt _ l) as [ls|] eqn:Hm; [|discriminate]. inversion Hrun; subst l'.
+      rewrite map_opt_omap in Hm.
+      assert (Hfr : frefines (fun v => match f v with Some r => seq_items r | None => None end)
+                             (fun v => obind (ev ((p, v) :: E) b2) as_list)).
+      { intros v w Hw. destruct (f v) as [r|] eqn:Hfv; [|discriminate].
+        rewrite (Hf v r Hfv). cbn [obind]. rewrite <- seq_items_as_list. exact Hw. }
+      rewrite (omap_refines _ _ l Hfr _ Hm). reflexivity.
+    - rewrite apply_op_where, Hsrc. cbn [obind as_list mk_view av_f1].
+      rewrite filter_opt_ofilter in Hrun.
+      assert (Hfr : frefines (fun v => match f v with Some r => Some (truthy r) | None => None end)
+                             (fun v => option_map truthy (ev ((p, v) :: E) b2))).
+      { intros v w Hw. destruct (f v) as [r|] eqn:Hfv; [|discriminate].
+        rewrite (Hf v r Hfv). exact Hw. }
+      rewrite (ofilter_refines _ _ l Hfr _ Hrun). reflexivity.
+  Qed.
+
+  (* a dictionary whose value does not depend on the environment (a literal) *)
+  Definition md_evaluable (d : expr) : Prop := exists dv, forall E, ev E d = Some dv.
+
+  Lemma eval_md_wrap E ds : md_identity B -> Forall md_evaluable ds ->
+    forall src v, ev E src = Some v -> ev E (md_wrap src ds) = Some v.
+  Proof.
+    intros Hmd H. induction H as [|d ds [dv Hd] _ IH]; intros src v Hsrc; [exact Hsrc|].
+    cbn [md_wrap]. apply IH. unfold function_call. cbn [eval map].
+    rewrite apply_op_md, Hsrc. cbn [obind mk_view av_val sequence]. rewrite (Hd E). cbn [obind]. apply Hmd.
+  Qed.
+End Node.
+
+(* ---------- 3. one modelled operator call ---------- *)
+
+Section Step.
+  Variable B : backend.
+  Variable ops : list string.
+  Variable W : world.
+  Hypothesis Hsel : is_op ops "Select" = true.
+  Hypothesis Hwh : is_op ops "Where" = true.
+  Hypothesis Hmd : md_identity B.
+  Notation ev := (eval B ops).
+
+  (* acquisition (capture freezing + helper inlining for a callable; nothing for a string / ast) refines the
+     meaning the lambda has under its own captured values *)
+  Definition acquire_sound (s : stage) : Prop :=
+    forall p b b0, st_src s = Lambda [p] b ->
+      acquire_lambda (st_acq s) (Lambda [p] b) = Capture.Ok (Lambda [p] b0) ->
+      forall v, refines (ev ((p, v) :: captured (st_acq s)) b) (ev [(p, v)] b0).
+
+  (* type following refines the meaning of the body; the metadata it attaches are literals *)
+  Definition follow_sound_at (item : ty) (op : opkind) (p : string) (b1 : expr) : Prop :=
+    forall b2 t evs,
+      TypeFollow.stream_op W op [] item (Lambda [p] b1) = TypeFollow.Ok (Lambda [p] b2, t, evs) ->
+      (forall v, refines (ev [(p, v)] b1) (ev [(p, v)] b2)) /\ Forall (md_evaluable B ops) (md_of_events evs).
+
+  Lemma step_inv k q item s q' t' p b :
+    st_src s = Lambda [p] b ->
+    step W k (q, item) s = POk (q', t') ->
+    (st_op s = OpSelect \/ st_op s = OpSelectMany \/ st_op s = OpWhere) /\
+    exists b0 b1 b2 evs,
+      acquire_lambda (st_acq s) (Lambda [p] b) = Capture.Ok (Lambda [p] b0) /\
+      Sugar.sugar b0 = Sugar.Ok b1 /\
+      TypeFollow.stream_op W (st_op s) [] item (Lambda [p] b1) = TypeFollow.Ok (Lambda [p] b2, t', evs) /\
+      q' = function_call (op_name (st_op s)) [md_wrap q (md_of_events evs); Lambda [p] b2].
+  Proof.
+    intros Hsrc. unfold step. cbn [fst snd]. rewrite Hsrc.
+    destruct (acquire_lambda (st_acq s) (Lambda [p] b)) as [lam0|[|]] eqn:Ha; try discriminate.
+    destruct (acquire_lambda_shape _ _ _ _ Ha) as (b0 & ->).
+    destruct (Sugar.sugar (Lambda [p] b0)) as [lam1|[r|c]] eqn:Hs; try discriminate.
+    destruct (sugar_lambda _ _ _ Hs) as (b1 & -> & Hsb).
+    destruct (TypeFollow.stream_op W (st_op s) [] item (Lambda [p] b1)) as [[[lam2 it'] evs]|r|c] eqn:Hf; try discriminate.
+    rewrite wrap_events_is. cbn [obind].
+    destruct (op_node (st_op s) (md_wrap q (md_of_events evs)) lam2) as [qq|] eqn:Hn; [|discriminate].
+    intros H. inversion H; subst qq it'. clear H.
+    apply op_node_some in Hn. destruct Hn as [Hop ->]. split; [exact Hop|].
+    destruct (stream_op_shape _ _ _ _ _ _ _ Hf) as (p' & b1' & b2 & t0 & Heq & -> & _).
+    inversion Heq; subst p' b1'.
+    exists b0, b1, b2, evs. repeat split; assumption.
+  Qed.
+
+  Lemma step_sound k q item s q' t' l l' :
+    step W k (q, item) s = POk (q', t') ->
+    ev [] q = Some (VList l) ->
+    run_stage B ops s l = Some l' ->
+    acquire_sound s ->
+    (forall p b b0 b1, st_src s = Lambda [p] b ->
+       acquire_lambda (st_acq s) (Lambda [p] b) = Capture.Ok (Lambda [p] b0) -> Sugar.sugar b0 = Sugar.Ok b1 ->
+       follow_sound_at item (st_op s) p b1) ->
+    ev [] q' = Some (VList l').
+  Proof.
+    intros Hstep Hq Hrun Hacq Hfol.
+    assert (Hsrc : exists p b, st_src s = Lambda [p] b).
+    { unfold run_stage, stage_fun in Hrun. destruct (st_src s); try discriminate Hrun.
+      destruct ps as [|p [|? ?]]; try discriminate Hrun. eauto. }
+    destruct Hsrc as (p & b & Hsrc).
+    destruct (step_inv _ _ _ _ _ _ _ _ Hsrc Hstep) as (Hop & b0 & b1 & b2 & evs & Ha & Hs & Hf & ->).
+    destruct (Hfol p b b0 b1 Hsrc Ha Hs b2 t' evs Hf) as [Hbody Hmds].
+    unfold run_stage, stage_fun in Hrun. rewrite Hsrc in Hrun.
+    eapply stage_sem; [| apply eval_md_wrap; eassumption | exact Hrun].
+    intros v. cbv beta.
+    eapply refines_trans; [apply (Hacq p b b0 Hsrc Ha v)|].
+    eapply refines_trans; [|apply Hbody].
+    intros w Hw. exact (sugar_sem_all B ops Hsel Hwh b0 b1 Hs [(p, v)] w Hw).
+  Qed.
+End Step.
+
+(* ---------- 4. chains ---------- *)
+
+(* untyped chains of ast / string lambdas in the grammar of C10: decided along the chain, the item type of each
+   stream being the one the model computes *)
+Fixpoint plain_chain (W : world) (item : ty) (ch : chain) : bool :=
+  match ch with
+  | [] => true
+  | s :: rest =>
+      match st_acq s, st_src s with
+      | AcqAsIs, Lambda [p] b =>
+          match Sugar.sugar b with
+          | Sugar.Ok b1 =>
+              expr_grammar W [(p, item)] b1 &&
+              match TypeFollow.stream_op W (st_op s) [] item (Lambda [p] b1) with
+              | TypeFollow.Ok (_, t, _) => plain_chain W t rest
+              | _ => true
+              end
+          | Sugar.Err _ => true
+          end
+      | _, _ => false
+      end
+  end.
+
+Lemma plain_stream_op W op item p b lam t ev :
+  ft_plain (w_ft W) -> simple item -> expr_grammar W [(p, item)] b = true ->
+  TypeFollow.stream_op W op [] item (Lambda [p] b) = TypeFollow.Ok (lam, t, ev) ->
+  lam = Lambda [p] b /\ ev = [] /\ simple t.
+Proof.
+  intros Hft Hitem Hg. cbn [TypeFollow.stream_op].
+  assert (HG : Forall (fun xt : string * ty => simple (snd xt)) [(p, item)]) by (constructor; [exact Hitem | constructor]).
+  pose proof (untyped_passthrough_x W [(p, item)] b Hft HG Hg) as H.
+  destruct (TypeFollow.follow W [(p, item)] b) as [[[b' t0] ev0]|r|k]; cbn [TypeFollow.bind]; try discriminate.
+  destruct H as (-> & -> & Ht0). unfold TypeFollow.finish_op.
+  destruct (negb _); [discriminate|].
+  destruct op; try discriminate.
+  - intros E; inversion E; subst. auto.
+  - intros E; inversion E; subst. repeat split. rewrite unwrap_iterable_simple by exact Ht0. reflexivity.
+  - destruct (ty_eqb t0 TBool); [|discriminate]. intros E; inversion E; subst. auto.
+Qed.
+
+Section Chain.
+  Variable B : backend.
+  Variable ops : list string.
+  Variable W : world.
+  Hypothesis Hsel : is_op ops "Select" = true.
+  Hypothesis Hwh : is_op ops "Where" = true.
+  Hypothesis Hmd : md_identity B.
+  Notation ev := (eval B ops).
+
+  (* the two named hypotheses about component models (see Properties/C01.v) *)
+  Definition capture_sound : Prop :=
+    forall ce p b b0, Capture.parse_callable ce (Lambda [p] b) = Capture.Ok (Lambda [p] b0) ->
+      forall v, refines (ev ((p, v) :: captured (AcqCallable ce)) b) (ev [(p, v)] b0).
+
+  Definition follow_sound : Prop :=
+    forall item op p b1, follow_sound_at B ops W item op p b1.
+
+  Lemma acquire_sound_asis s : st_acq s = AcqAsIs -> acquire_sound B ops s.
+  Proof.
+    intros Ha p b b0 _ H v. rewrite Ha in *. cbn [acquire_lambda captured] in *. inversion H; subst. apply refines_refl.
+  Qed.
+
+  Lemma acquire_sound_of s : capture_sound -> acquire_sound B ops s.
+  Proof.
+    intros Hc. destruct (st_acq s) as [ce|] eqn:Ha; [|apply acquire_sound_asis; exact Ha].
+    intros p b b0 _ H v. rewrite Ha in *. cbn [acquire_lambda] in H. exact (Hc ce p b b0 H v).
+  Qed.
+
+  Theorem chain_sound : capture_sound -> follow_sound ->
+    forall ch k q item q' t' l r,
+      build_from W k (q, item) ch = POk (q', t') ->
+      ev [] q = Some (VList l) -> direct B ops ch l = Some r -> ev [] q' = Some (VList r).
+  Proof.
+    intros Hc Hf. induction ch as [|s rest IH]; intros k q item q' t' l r Hb Hq Hd.
+    - cbn in Hb, Hd. inversion Hb; inversion Hd; subst. exact Hq.
+    - cbn [build_from] in Hb. destruct (step W k (q, item) s) as [[q1 t1]|] eqn:Hstep; [|discriminate].
+      cbn [pbind] in Hb. cbn [direct] in Hd. destruct (run_stage B ops s l) as [l1|] eqn:Hrun; [|discriminate].
+      eapply IH; [exact Hb | | exact Hd].
+      eapply (step_sound B ops W Hsel Hwh Hmd); try eassumption.
+      + apply acquire_sound_of; exact Hc.
+      + intros p b b0 b1 _ _ _. apply Hf.
+  Qed.
+
+  Theorem plain_chain_sound : ft_plain (w_ft W) ->
+    forall ch k q item q' t' l r,
+      simple item -> plain_chain W item ch = true ->
+      build_from W k (q, item) ch = POk (q', t') ->
+      ev [] q = Some (VList l) -> direct B ops ch l = Some r -> ev [] q' = Some (VList r).
+  Proof.
+    intros Hft. induction ch as [|s rest IH]; intros k q item q' t' l r Hitem Hp Hb Hq Hd.
+    - cbn in Hb, Hd. inversion Hb; inversion Hd; subst. exact Hq.
+    - cbn [build_from] in Hb. destruct (step W k (q, item) s) as [[q1 t1]|] eqn:Hstep; [|discriminate].
+      cbn [pbind] in Hb. cbn [direct] in Hd. destruct (run_stage B ops s l) as [l1|] eqn:Hrun; [|discriminate].
+      cbn [plain_chain] in Hp.
+      destruct (st_acq s) as [ce|] eqn:Hacq; [discriminate|].
+      destruct (st_src s) as [| | | |ps b| | | | | | | | | | | | | |] eqn:Hsrc; try discriminate.
+      destruct ps as [|p [|? ?]]; try discriminate.
+      destruct (step_inv W k q item s q1 t1 p b Hsrc Hstep) as (Hop & b0 & b1 & b2 & evs & Ha & Hs & Hf & ->).
+      rewrite Hacq in Ha. cbn [acquire_lambda] in Ha. inversion Ha; subst b0. clear Ha.
+      rewrite Hs in Hp. apply andb_true_iff in Hp. destruct Hp as [Hg Hrest]. rewrite Hf in Hrest.
+      destruct (plain_stream_op W _ item p b1 _ _ _ Hft Hitem Hg Hf) as (Hlam & -> & Ht1).
+      eapply IH; [exact Ht1 | exact Hrest | exact Hb | | exact Hd].
+      eapply (step_sound B ops W Hsel Hwh Hmd); try eassumption.
+      + apply acquire_sound_asis; exact Hacq.
+      + intros p' b' b0' b1' Hsrc' Ha' Hs'. rewrite Hsrc in Hsrc'. inversion Hsrc'; subst p' b'.
+        rewrite Hacq in Ha'. cbn [acquire_lambda] in Ha'. inversion Ha'; subst b0'.
+        rewrite Hs in Hs'. inversion Hs'; subst b1'.
+        intros b2' t2 evs2 Hf2.
+        destruct (plain_stream_op W _ item p b1 _ _ _ Hft Hitem Hg Hf2) as (Hl2 & -> & _).
+        inversion Hl2; subst b2'. split; [intros v; apply refines_refl | constructor].
+  Qed.
+
+  (* ---------- terminals and value() ---------- *)
+
+  Definition terminal_nodes : list string := map (fun t => snd (fst t)) terminals.
+
+  Definition terminals_ok : Prop :=
+    forall node v args, In node terminal_nodes -> fun_sem B node (v :: args) [] = Some v.
+
+  Lemma find_node_in tbl m node spec :
+    find_node tbl m = Some (node, spec) -> In node (map (fun t => snd (fst t)) tbl).
+  Proof.
+    induction tbl as [|[[m' n'] sp] tbl IH]; cbn; [discriminate|].
+    destruct (String.eqb m m'); [intros H; inversion H; left; reflexivity | intros H; right; apply IH; exact H].
+  Qed.
+
+  Lemma terminal_node_inv t src q :
+    terminal_node t src = Some q ->
+    exists node vs, q = function_call node (src :: map as_ast_tval vs) /\ In node terminal_nodes.
+  Proof.
+    unfold terminal_node. intros H. apply obind_some in H. destruct H as [[node spec] [Hfind H]].
+    cbn [fst snd] in H.
+    destruct (omap _ spec) as [args|] eqn:Hargs; [|discriminate]. inversion H; subst q. clear H.
+    exists node.
+    assert (Hvs : exists vs, args = map as_ast_tval vs).
+    { clear Hfind. revert args Hargs. induction spec as [|n spec IH]; intros args Hargs.
+      - apply omap_nil_some in Hargs. subst. exists []. reflexivity.
+      - apply omap_cons_some in Hargs. destruct Hargs as (a & r & Ha & Hr & ->).
+        destruct (IH r Hr) as [vs ->].
+        destruct (assoc n (t_args t)) as [v|]; [|discriminate]. cbn [option_map] in Ha. inversion Ha.
+        eexists (_ :: vs). reflexivity. }
+    destruct Hvs as [vs ->]. exists vs. split; [reflexivity|].
+    eapply find_node_in; eassumption.
+  Qed.
+
+  Lemma tval_evaluates E v : exists w, ev E (as_ast_tval v) = Some w.
+  Proof.
+    destruct v as [s|l]; cbn [as_ast_tval eval const_value]; [eauto|].
+    assert (H : omap (ev E) (map (fun s => Const (CStr s)) l) = Some (map VStr l)).
+    { induction l as [|s l IH]; [reflexivity|]. cbn [map]. rewrite omap_cons, IH. reflexivity. }
+    rewrite H. cbn. eauto.
+  Qed.
+
+  Lemma apply_op_terminal node recv args :
+    In node terminal_nodes ->
+    apply_op B node recv args =
+    obind recv (fun s => obind (sequence (map av_val args)) (fun vs => fun_sem B node (s :: vs) [])).
+  Proof.
+    unfold terminal_nodes. cbn [map terminals fst snd].
+    intros H. repeat (destruct H as [<- | H]; [reflexivity|]). destruct H.
+  Qed.
+
+  Lemma terminal_sem E t src q v :
+    terminals_ok -> terminal_node t src = Some q -> ev E src = Some v -> ev E q = Some v.
+  Proof.
+    intros Ht Hn Hsrc. destruct (terminal_node_inv _ _ _ Hn) as (node & vs & -> & Hin).
+    unfold function_call. cbn [eval]. rewrite (apply_op_terminal _ _ _ Hin), Hsrc. cbn [obind]. clear Hn.
+    assert (Hseq : exists ws, sequence (map av_val (map (mk_view (eval B ops) E) (map as_ast_tval vs))) = Some ws).
+    { induction vs as [|x vs IHvs].
+      - exists nil. reflexivity.
+      - destruct IHvs as [ws IH]. destruct (tval_evaluates E x) as [w Hw]. exists (w :: ws).
+        cbn [map sequence mk_view av_val]. rewrite Hw. cbn [obind]. cbn [map] in IH. rewrite IH. reflexivity. }
+    destruct Hseq as [ws ->]. cbn [obind]. apply Ht. exact Hin.
+  Qed.
+
+  Lemma query_sound item ch term q r :
+    terminals_ok -> query W item ch term = POk q ->
+    (forall q0 t0, build W item ch = POk (q0, t0) -> ev [] q0 = Some (VList r)) ->
+    ev [] q = Some (VList r).
+  Proof.
+    intros Ht Hq Hb. unfold query in Hq.
+    destruct (build W item ch) as [[q0 t0]|] eqn:Hbuild; [|discriminate]. cbn [pbind fst] in Hq.
+    specialize (Hb q0 t0 eq_refl).
+    destruct term as [t|].
+    - destruct (terminal_node t q0) as [q1|] eqn:Hn; [|discriminate].
+      destruct (MetaData.remove_empty q1) as [q2|] eqn:Hr; [|discriminate]. inversion Hq; subst q2.
+      eapply (remove_sem B ops Hmd); [exact Hr|]. eapply terminal_sem; eassumption.
+    - destruct (MetaData.remove_empty q0) as [q2|] eqn:Hr; [|discriminate]. inversion Hq; subst q2.
+      eapply (remove_sem B ops Hmd); eassumption.
+  Qed.
+End Chain.
+
+(* ---------- the headline statements ---------- *)
+
+Theorem operator_chain_means_direct_x (B : backend) (ops : list string) (W : world) :
+  is_op ops "Select" = true -> is_op ops "Where" = true ->
+  md_identity B -> terminals_ok B -> ft_plain (w_ft W) ->
+  forall ch term q data r,
+    dataset B data ->
+    plain_chain W TAny ch = true ->
+    query W TAny ch term = POk q ->
+    direct B ops ch data = Some r ->
+    eval B ops [] q = Some (VList r).
+Proof.
+  intros Hsel Hwh Hmd Ht Hft ch term q data r Hds Hp Hq Hd.
+  eapply (query_sound B ops W Hmd); [exact Ht | exact Hq|].
+  intros q0 t0 Hb. unfold build in Hb.
+  apply (plain_chain_sound B ops W Hsel Hwh Hmd Hft ch 0 root TAny q0 t0 data r);
+    [reflexivity | exact Hp | exact Hb | apply eval_root; exact Hds | exact Hd].
+Qed.
+
+Theorem query_means_chain_x (B : backend) (ops : list string) (W : world) :
+  is_op ops "Select" = true -> is_op ops "Where" = true ->
+  md_identity B -> terminals_ok B ->
+  capture_sound B ops -> follow_sound B ops W ->
+  forall item ch term q data r,
+    dataset B data ->
+    query W item ch term = POk q ->
+    direct B ops ch data = Some r ->
+    eval B ops [] q = Some (VList r).
+Proof.
+  intros Hsel Hwh Hmd Ht Hc Hf item ch term q data r Hds Hq Hd.
+  eapply (query_sound B ops W Hmd); [exact Ht | exact Hq|].
+  intros q0 t0 Hb. unfold build in Hb.
+  apply (chain_sound B ops W Hsel Hwh Hmd Hc Hf ch 0 root item q0 t0 data r);
+    [exact Hb | apply eval_root; exact Hds | exact Hd].
+Qed.
+
+(* ---------- 5. the backend passes ---------- *)
+
+Theorem ext_agg_sem (B : backend) q q' :
+  ExtCalls.ops_kw_free ext_default_ops q = true ->
+  Aggregate.agg (ExtCalls.ext q) = Some q' ->
+  forall E v, eval B ext_default_ops E q = Some v -> eval B ext_default_ops E q' = Some v.
+Proof.
+  intros Hk Ha E v Hv.
+  eapply (agg_sem B ext_default_ops); [exact Ha|].
+  apply (ext_sem B ext_default_ops q Hk E v Hv).
+Qed.
+
+(* the whole-algorithm theorem of C02, not proved there: taken as a named hypothesis *)
+Definition simp_ok (B : backend) (ops : list string) (fuel : nat) : Prop :=
+  forall q q', simplify_query fuel q = Some q' ->
+    forall E v, eval B ops E q = Some v -> eval B ops E q' = Some v.
+
+Theorem passes_sem (B : backend) fuel q q' :
+  simp_ok B ext_default_ops fuel ->
+  ExtCalls.ops_kw_free ext_default_ops q = true ->
+  backend_passes fuel q = Some q' ->
+  forall E v, eval B ext_default_ops E q = Some v -> eval B ext_default_ops E q' = Some v.
+Proof.
+  intros Hs Hk Hp E v Hv. unfold backend_passes in Hp.
+  destruct (Aggregate.agg (ExtCalls.ext q)) as [q1|] eqn:Ha; [|discriminate]. cbn [obind] in Hp.
+  eapply Hs; [exact Hp|]. eapply ext_agg_sem; eassumption.
+Qed.
+
+(* the two halves together, for the chains of [operator_chain_means_direct_x] *)
+Theorem end_to_end_x (B : backend) (W : world) (fuel : nat) :
+  md_identity B -> terminals_ok B -> ft_plain (w_ft W) -> simp_ok B ext_default_ops fuel ->
+  forall ch term q q' data r,
+    dataset B data ->
+    plain_chain W TAny ch = true ->
+    query W TAny ch term = POk q ->
+    ExtCalls.ops_kw_free ext_default_ops q = true ->
+    backend_passes fuel q = Some q' ->
+    direct B ext_default_ops ch data = Some r ->
+    eval B ext_default_ops [] q' = Some (VList r).
+Proof.
+  intros Hmd Ht Hft Hs ch term q q' data r Hds Hp Hq Hk Hb Hd.
+  eapply passes_sem; try eassumption.
+  eapply (operator_chain_means_direct_x B ext_default_ops W); try eassumption; reflexivity.
+Qed.
